@@ -29,6 +29,9 @@ type c01Case struct {
 	// InitialCRLF: the pre-existing files have CRLF line ends (a checkout with core.autocrlf): every reader of the format drops
 	// the CR in front of the LF, so they hold the same entries
 	InitialCRLF bool `json:"initial_files_with_crlf,omitempty"`
+	// Between: before run 2 the multi-entry files are re-presented the way tools around a repository do it without changing
+	// a line: "no_final_newline" (an editor or a merge tool stripped the last newline), "crlf" (checkout with autocrlf)
+	Between string `json:"files_represented_between_runs,omitempty"`
 	Inter2   []int      `json:"run2_interleave,omitempty"` // if set: run 2 interleaves the tests like parallel tests (choices of which live test moves next)
 }
 
@@ -132,6 +135,7 @@ func genC01(t *rapid.T) c01Case {
 	}
 	c.InitialCRLF = rapid.IntRange(0, 4).Draw(t, "initialcrlf") == 0
 	c.Run2Mode = rapid.SampledFrom([]string{"default", "update_false", "ci", "clean"}).Draw(t, "mode2")
+	c.Between = rapid.SampledFrom([]string{"", "", "", "", "no_final_newline", "crlf"}).Draw(t, "between")
 	c.Run2Perm = rapid.Permutation(indices(ntests)).Draw(t, "perm")
 	c.Record = rapid.SampledFrom([]string{"env", "option"}).Draw(t, "record")
 	c.Count2 = rapid.SampledFrom([]int{1, 1, 1, 2, 3}).Draw(t, "count2")
@@ -155,6 +159,25 @@ func writeInitial(root string, cfgs []CfgSpec, initial [][]Entry, crlf ...bool) 
 		}
 		os.WriteFile(p, []byte(text), 0o644)
 	}
+}
+
+// representFile rewrites a multi-entry file in another presentation of the same lines.
+func representFile(p, kind string) {
+	b, err := os.ReadFile(p)
+	if err != nil || kind == "" {
+		return
+	}
+	text := string(b)
+	switch kind {
+	case "no_final_newline":
+		text = strings.TrimSuffix(text, "\n")
+	case "crlf":
+		if strings.Contains(text, "\r") {
+			return
+		}
+		text = strings.ReplaceAll(text, "\n", "\r\n")
+	}
+	os.WriteFile(p, []byte(text), 0o644)
 }
 
 func buildCfgs(root string, specs []CfgSpec, update *bool) []*Config {
@@ -207,6 +230,9 @@ func checkC01(c c01Case) error {
 		mode.CI = true
 	case "clean":
 		mode.Update = "clean"
+	}
+	for _, cf := range c.Cfgs {
+		representFile(filepath.Join(root, cf.multiPath()), c.Between)
 	}
 	newProcess(mode)
 	cfgs = buildCfgs(root, c.Cfgs, upd)
@@ -293,6 +319,9 @@ func classifyC01(c c01Case) ([]string, bool) {
 				break
 			}
 		}
+	}
+	if c.Between != "" {
+		cls = append(cls, "files_represented_between_runs_"+c.Between)
 	}
 	kinds := map[string]bool{}
 	for _, tp := range c.Tests {
